@@ -309,14 +309,15 @@ def hash_part(run):
         _S = tc.Setup()
     except (mir.Unsupported, RuntimeError) as e:
         run.inconclusive('engine T set-up', 'T', str(e)); return
-    jobs = [('resolve', (2, 0, 1)), ('resolve', (2, 1, 1)), ('declared', (1, 2, 0)), ('declared', (2, 2, 1)), ('ranges', ())]
+    # (imports, forward declarations, registered keys): two imports exercise the choice among imports, two keys any look through the key map
+    jobs = [('resolve', (2, 0, 1)), ('resolve', (2, 1, 1)), ('resolve', (0, 0, 2)), ('resolve', (1, 0, 2)), ('declared', (1, 2, 0)), ('declared', (2, 2, 1)), ('ranges', ())]
     if run.tier == 'thorough':
         jobs += [('resolve', (3, 0, 1)), ('resolve', (2, 0, 2)), ('declared', (2, 3, 1))]
     with mp.Pool(len(jobs)) as pool:
         res = pool.map(_choice_task, jobs)
     nat = None
     for kind, cfg, (pairs, nq, viol), err, secs in res:
-        title = {'resolve': 'resolve_type gives the same classification whatever the iteration order of the import set (%d imports, %d forward declarations, %d keys)',
+        title = {'resolve': 'resolve_type gives the same classification and diagnostic texts whatever the iteration order of the import set and of the key map (%d imports, %d forward declarations, %d keys)',
                  'declared': 'check_declared_parcelables gives the same diagnostics whatever the iteration order of the import map (%d declarations, %d imports, %d resolved keys)',
                  'ranges': 'diagnostics pushed while iterating a hash container have pairwise distinct statement ranges on every path (no hash-dependent tie for the stable sort)'}[kind]
         title = title % cfg if cfg else title
